@@ -4,7 +4,7 @@
     Proofs.v / ProofsTop.v, the model in Model.v, the guard in Spec.v. *)
 From Coq Require Import List ZArith NArith Bool.
 From C33 Require Import C01.Keys C01.Model C01.Spec C01.Store C01.Inv
-                        C03.Model C03.Spec C03.Proofs C03.Ideal C03.ProofsTop.
+                        C03.Model C03.Spec C03.Proofs C03.Ideal C03.ProofsTop C03.ProofsE2E.
 Import ListNotations.
 Local Open Scope Z_scope.
 
@@ -69,12 +69,23 @@ Theorem C03_leaf_inner_confusion : forall (H : hashfn), len32 H ->
        verify_kv H (digest H pf (Leaf k0 (leaf_hash H k v))) k v [mk_pnode 0 1 k0 []] = true) /\
     (forall v0, (length v0 <= 32)%nat ->
        verify_kv H (digest H pf (Leaf (leaf_hash H k v) v0)) k v [mk_pnode 0 1 [] v0] = true).
-Proof.
-  intros H HL pf k v. split.
-  - intros. apply leaf_inner_confusion_value; assumption.
-  - intros. apply leaf_inner_confusion_key; assumption.
-Qed.
+Proof. exact leaf_inner_confusion. Qed.
 Print Assumptions C03_leaf_inner_confusion.
+
+(** The repaired verifier (work/C03/fix.diff: reject supplied nodes of height 0;
+    the patch rejects every height < 1) is sound WITHOUT the guard, and honest
+    proofs still pass its added test. *)
+Theorem C03_repaired_sound : forall (H : hashfn), len32 H ->
+  forall t pf k v pi, sized t ->
+    heights_ok pi && verify_kv H (digest H pf t) k v pi = true ->
+    In (k, v) (elements t) \/ collision H.
+Proof. exact sound_repaired. Qed.
+Print Assumptions C03_repaired_sound.
+
+Theorem C03_repaired_complete : forall (H : hashfn) t, sized t -> forall pf k v lh pi,
+  construct H pf t k = Some (v, lh, pi) -> heights_ok pi = true.
+Proof. exact construct_heights_ok. Qed.
+Print Assumptions C03_repaired_complete.
 
 (** Another value fails: an accepted value is the one the tree holds. *)
 Theorem C03_sound_value_partial : forall (H : hashfn), len32 H ->
@@ -123,6 +134,27 @@ Theorem C03_root_of_symbolic : forall (H : hashfn), len32 H ->
   forall t pf, digest H pf t = interp H (thash t).
 Proof. exact digest_of_symbolic. Qed.
 Print Assumptions C03_root_of_symbolic.
+
+(** End to end with C01's store theorem: for every history of committed write
+    batches [bs] and every committed version i seen from a later database j,
+    every pair of the abstract state [state (firstn i bs)] has a proof that
+    verifies against the version's root, absent keys get no proof, and (guarded)
+    whatever verifies against that root is a pair of the abstract state. *)
+Theorem C03_state_proofs : forall (H : hashfn), len32 H ->
+  forall bs i j, (i <= j)%nat ->
+    exists di ri dj rj oi,
+      history (firstn i bs) = Some (di, ri) /\
+      history (firstn j bs) = Some (dj, rj) /\
+      load_tree dj ri = Some oi /\
+      (forall pf k v, sget (state (firstn i bs)) k = Some v ->
+         exists pi, get_kv_pair_proof H pf oi k = Some pi /\
+                    verify_kv H (byte_root H ri) k v pi = true) /\
+      (forall pf k, sget (state (firstn i bs)) k = None -> get_kv_pair_proof H pf oi k = None) /\
+      (no_confusable (state (firstn i bs)) = true ->
+       forall k v pi, verify_kv H (byte_root H ri) k v pi = true ->
+         sget (state (firstn i bs)) k = Some v \/ collision H).
+Proof. exact state_proofs. Qed.
+Print Assumptions C03_state_proofs.
 
 (** The hypotheses on [H] are satisfiable. *)
 Theorem C03_ideal_hash : len32 H_ideal /\ injective4 H_ideal.
